@@ -25,6 +25,13 @@ use std::sync::atomic::{AtomicU32, Ordering};
 use utils::hash::{HashMap, HashSet};
 
 pub(crate) fn solve_types(ctx: &mut StaticsContext, file_asts: &Vec<Rc<FileAst>>) {
+    // the implementations of every file must be known before the first interface constraint
+    // is checked. Default values are already checked together with the declarations
+    for file in file_asts {
+        for item in file.items.iter() {
+            register_interface_impl(ctx, item);
+        }
+    }
     for file in file_asts {
         generate_constraints_file_decls(ctx, file);
     }
@@ -1777,20 +1784,24 @@ pub(crate) fn generate_constraints_file_decls(ctx: &mut StaticsContext, file: &R
     }
 }
 
+// updates the impl_list data structure so it can be used in decls0 and decls1
+fn register_interface_impl(ctx: &mut StaticsContext, item: &Rc<Item>) {
+    if let ItemKind::InterfaceImpl(iface_impl) = &*item.kind {
+        let lookup = ctx.resolution_map.get(&iface_impl.iface.id).cloned();
+        if let Some(Declaration::InterfaceDef(iface_def)) = &lookup {
+            let impl_list = ctx.interface_impls.entry(iface_def.clone()).or_default();
+            impl_list.push(iface_impl.clone());
+        }
+    }
+}
+
 // decls0 is responsible for most declarations
-// It also updates the impl_list data structure so it can be used in decls1
 fn generate_constraints_item_decls0(ctx: &mut StaticsContext, item: &Rc<Item>) {
     match &*item.kind {
         ItemKind::InterfaceDef(..) => {}
         ItemKind::Import(..) => {}
         ItemKind::Stmt(_) => {}
-        ItemKind::InterfaceImpl(iface_impl) => {
-            let lookup = ctx.resolution_map.get(&iface_impl.iface.id).cloned();
-            if let Some(Declaration::InterfaceDef(iface_def)) = &lookup {
-                let impl_list = ctx.interface_impls.entry(iface_def.clone()).or_default();
-                impl_list.push(iface_impl.clone());
-            }
-        }
+        ItemKind::InterfaceImpl(..) => {}
         ItemKind::Extension(ext) => {
             for f in &ext.methods {
                 if let Some(first_arg) = f.args.first()
